@@ -84,6 +84,15 @@ Theorem C07_glog_t_nodup : forall sched st, NoDup (map fst (glog_t st sched)).
 Proof. exact glog_t_nodup. Qed.
 Print Assumptions C07_glog_t_nodup.
 
+(* the requests of the linearisation are the threads' program requests, at the position their
+   identity says, with preconditions frozen against a store of the run *)
+Theorem C07_glog_request_origin : forall s0 progs sched i L r,
+  In ((i, L), r) (glog_t (init_g s0 progs) sched) ->
+  exists served r0 rest s, nth_error progs i = Some (served ++ r0 :: rest)
+    /\ length (r0 :: rest) = L /\ r = freeze s r0.
+Proof. exact glog_request_origin_init. Qed.
+Print Assumptions C07_glog_request_origin.
+
 (* compose: all sources exist in ONE store state (the capture step) ... *)
 Theorem C07_compose_capture : forall st i b dst bad srcs dm cp,
   cur_req st i = Some (RCompose b dst bad srcs dm cp, GNew) -> snd (gstep st i) = OAt ->
@@ -134,6 +143,18 @@ Theorem C07_exactly_one_conditional_writer_wins_from : forall st sched b n g,
   = match pending st with O => [] | S k => 200 :: repeat 412 k end.
 Proof. exact exactly_one_conditional_writer_wins_from. Qed.
 Print Assumptions C07_exactly_one_conditional_writer_wins_from.
+
+(* the same with SYMBOLIC preconditions "ifGenerationMatch = the generation of (b, n) as I see it"
+   (PGen b n 0), frozen at each thread's first step, all first steps before any answer *)
+Theorem C07_exactly_one_conditional_writer_wins_symbolic : forall s0 b n g (payloads : list (str * bytes)) pre post,
+  n <> [] -> 0 < g <= int64_max -> has_gen b n g s0 ->
+  let st := init_g s0 (map (fun cd => [RUploadMedia b n (fst cd) (snd cd) (sym_cp b n)]) payloads) in
+  (forall i, (i < length payloads)%nat -> In i pre) -> done_resps (snd (grun st pre)) = [] ->
+  all_done (fst (grun st (pre ++ post))) ->
+  map r_status (done_resps (snd (grun st (pre ++ post))))
+  = match length payloads with O => [] | S k => 200 :: repeat 412 k end.
+Proof. exact exactly_one_conditional_writer_wins_symbolic. Qed.
+Print Assumptions C07_exactly_one_conditional_writer_wins_symbolic.
 
 (* likewise for uploads conditioned on non-existence (ifGenerationMatch=0) of an absent object *)
 Theorem C07_exactly_one_dne_writer_wins : forall s0 b n (payloads : list (str * bytes)) sched,
@@ -294,6 +315,16 @@ Proof.
   - apply all_reqs_init. repeat constructor.
   - split; [reflexivity|]. split; vm_compute; reflexivity.
 Qed.
+
+(* symbolic preconditions: both first steps, then both commits.  If thread 1 made its first step
+   only after thread 0's answer, its condition would be frozen to the NEW generation and it would
+   win too: the hypothesis "all first steps before any answer" is needed *)
+Example C07_symbolic_writers_nonvacuous :
+  let st := init_g c07_s1 [[c07_sup [2]%N]; [c07_sup [3]%N]] in
+  done_resps (snd (grun st [0; 1]%nat)) = []
+  /\ map otag (snd (grun st ([0; 1] ++ [0; 1])%nat)) = [1; 2; 200; 412]
+  /\ map otag (snd (grun st [0; 0; 1; 1]%nat)) = [1; 200; 1; 200].
+Proof. cbn zeta. split; [|split]; vm_compute; reflexivity. Qed.
 
 (* the linearisation of a schedule in which the second thread commits first *)
 Example C07_log_example :
